@@ -102,6 +102,7 @@ structure CallOpts where
   dump : Bool := false
   co : Nat := 0
   zl : Option String := none
+  zc : List (Nat × Nat) := []
 
 def parsePair (v : String) : Option (Nat × Nat) :=
   match v.splitOn ":" with
@@ -121,6 +122,7 @@ def parseOpts (ts : List String) : Option CallOpts :=
       else if w.startsWith "so=" then (parsePair (w.drop 3).toString).map fun p => { o with so := o.so ++ [p] }
       else if w.startsWith "co=" then (w.drop 3).toString.toNat?.map fun n => { o with co := n }
       else if w.startsWith "zl=" then some { o with zl := some (w.drop 3).toString }
+      else if w.startsWith "zc=" then (parsePair (w.drop 3).toString).map fun p => { o with zc := o.zc ++ [p] }
       else if w == "em" then some { o with em := true }
       else if w == "dyn" then some o
       else if w == "dump" then some { o with dump := true }
@@ -198,6 +200,7 @@ def makeInput (ofF : Float → σ) (sg : Sig) (consumed nGiven lenAll : Nat) (o 
       | none => true
       | some m => (m[ch]?).getD true
     let len := if o.em && !act then 0 else len
+    let zl : Option Nat := o.zc.foldl (fun acc p => if p.1 == ch then some p.2 else acc) zl
     (Array.range len).map fun k =>
       match zl with
       | some z => if k ≥ z then ofF 0.0 else ofF (sg.value (ch + o.co) (consumed + k))
